@@ -4,7 +4,7 @@
    Types: 0 bool, 1 char, 2 int, 3 unsigned, 4 long, 5 unsigned long, 6 long long, 7 unsigned long long, 8.. enums (LP64). *)
 Require Import V.Lib.Base V.Lib.Dec V.Gen.Consts_C16.
 Require Import V.C16.Model V.C16.Spec V.C16.ProofsBasic V.C16.ProofsRT V.C16.ProofsAcc V.C16.ProofsEnum V.C16.ProofsComp.
-Require Import V.C16.ProofsCompElems V.C16.ProofsCompAcc V.C16.ProofsAppend V.C16.ProofsEnumGen.
+Require Import V.C16.ProofsCompElems V.C16.ProofsCompAcc V.C16.ProofsAppend V.C16.ProofsEnumGen V.C16.ProofsStream.
 Local Open Scope Z_scope.
 
 (* ================= (1) round trip, ALL values of every integer type ================= *)
@@ -499,4 +499,64 @@ Example nv_enum_wf_needed :
    print_enum ec 1 = [105; 109; 97; 120; 76] /\ p_ok (parse_enum ec false [105; 109; 97; 120; 76]) = false) /\
   (let ec := mkec [72; 105; 32; 61; 32; 57; 44; 32; 76; 111; 32; 61; 32; 49] 0 1 in
    ec_entries ec = [([72; 105], 9); ([76; 111], 1)] /\ p_ok (parse_enum ec false [57]) = false /\ parse_enum ec false [72; 105] = mkp true 9 2 false).
+Proof. vm_compute. repeat split. Qed.
+
+(* ================= stream-parsed types: the fall back template xconvert(const char*, T&, const char**, double) =================
+   Types without a typed overload (30 signed char, 31 unsigned char, 32 short, 33 unsigned short in harness op 9) are read through a
+   std::istream over the string; operator>> is modelled (C16/Model.v, parse_stream) and compared with the real one by the
+   correspondence run.  For EVERY string: the reported end position lies inside the string, an accepted text consumed at least one
+   character, errno is untouched. *)
+Theorem c16_stream_end_inside : forall ty e x,
+  (p_len (parse_stream ty e x) <= length x)%nat /\
+  (p_ok (parse_stream ty e x) = true -> (1 <= p_len (parse_stream ty e x))%nat) /\
+  p_err (parse_stream ty e x) = e.
+Proof. intros ty e x. destruct (stream_inside ty e x) as [H1 H2]. split; [exact H1|]. split; [exact H2|]. apply stream_errno. Qed.
+Print Assumptions c16_stream_end_inside.
+
+(* short / unsigned short: an accepted decimal text yields a value within the range of the type *)
+Theorem c16_stream_short_in_range : forall e x,
+  (p_ok (parse_stream 32 e x) = true -> c_SHRT_MIN <= p_val (parse_stream 32 e x) <= c_SHRT_MAX) /\
+  (p_ok (parse_stream 33 e x) = true -> 0 <= p_val (parse_stream 33 e x) <= c_USHRT_MAX).
+Proof.
+  intros e x. split; intros H.
+  - apply (stream_num_range true c_SHRT_MIN c_SHRT_MAX e x); [vm_compute; split; discriminate | discriminate | exact H].
+  - apply (stream_num_range false 0 c_USHRT_MAX e x); [vm_compute; split; discriminate | reflexivity | exact H].
+Qed.
+Print Assumptions c16_stream_short_in_range.
+
+(* FINDING (reported, not decided): the 8-bit integer types are read as ONE CHARACTER behind the white space, whatever it is - the
+   value is the character code, not the number the text denotes ("7" gives 55, "77" gives 55 and leaves "7") *)
+Theorem c16_stream_8bit_is_a_character : forall sgn e x c r,
+  drop_while is_space x = c :: r ->
+  parse_stream_char sgn e x =
+  mkp true (if sgn && (c >? c_SCHAR_MAX) then c - (c_UCHAR_MAX + 1) else c) (S (length (take_while is_space x))) e.
+Proof. exact stream_char_value. Qed.
+Print Assumptions c16_stream_8bit_is_a_character.
+Theorem c16_stream_8bit_number_refuted : exists x, parse_scalar 2 false x = mkp true 7 1 false /\ parse_stream 31 false x = mkp true 55 1 false.
+Proof. exists [55]. vm_compute. split; reflexivity. Qed.
+Print Assumptions c16_stream_8bit_number_refuted.
+
+(* the pair / sequence templates of the stream section are the ones the typed element types go through *)
+Theorem c16_pair_template_instance : forall ta tb ia ib e x,
+  parse_pair ta tb ia ib e x = parse_pair_g (parse_scalar ta) (parse_scalar tb) ia ib e x.
+Proof. exact pair_template_instance. Qed.
+Print Assumptions c16_pair_template_instance.
+Theorem c16_seq_template_instance : forall ty fuel maxlen e n acc,
+  (length acc + fuel <= maxlen)%nat ->
+  seq_loop_g (parse_scalar ty) def_sep fuel maxlen e n acc = seq_loop fuel ty e n acc.
+Proof. exact seq_template_instance. Qed.
+Print Assumptions c16_seq_template_instance.
+
+(* non-vacuity: the token is the last character(s) of the string / of a pair / of a list; white space; range ends; no base prefix *)
+Example nv_stream :
+  parse_stream 30 false [55] = mkp true 55 1 false /\ parse_stream 30 true [32; 200; 44] = mkp true (-56) 2 true /\
+  parse_stream 31 false [] = pfail false /\ parse_stream 31 false [32] = pfail false /\
+  parse_stream 32 false [45; 51; 50; 55; 54; 56] = mkp true (-32768) 6 false /\ p_ok (parse_stream 32 false [51; 50; 55; 54; 56]) = false /\
+  parse_stream 33 false [45; 49] = mkp true 65535 2 false /\ p_ok (parse_stream 33 false [54; 53; 53; 51; 54]) = false /\
+  parse_stream 32 false [48; 49; 48] = mkp true 10 3 false /\ parse_stream 32 false [48; 120; 49; 48] = mkp true 0 1 false /\
+  parse_pair_g (parse_any 30) (parse_any 30) 0 0 false [97; 44; 98] = (2, 97, 98, 3%nat) /\
+  parse_pair_g (parse_any 2) (parse_any 31) 0 0 false [49; 50; 44; 122] = (2, 12, 122, 4%nat) /\
+  parse_seq_g (parse_any 31) 3 false [120; 44; 121; 44; 122] = ([120; 121; 122], 5%nat, false) /\
+  parse_seq_g (parse_any 31) 2 false [120; 44; 121; 44; 122] = ([120; 121], 4%nat, false) /\
+  parse_seq_g (parse_any 32) 9 false [91; 49; 44; 50; 93] = ([1; 2], 5%nat, false).
 Proof. vm_compute. repeat split. Qed.
